@@ -1276,3 +1276,9 @@ def install(domain_cls):
 
 
 install(UD.UnytDomain)
+
+
+assumed("numpy-ndarray-setstate", "ndarray.__setstate__(state) restores shape, dtype and data of the array from the "
+        "pickled state; it does not look at or touch the units attribute")
+UD.SUPER_ATTR[("unyt_array", "__setstate__")] = lambda it, obj: Intrinsic(
+    "ndarray.__setstate__", lambda it_, state: None)
